@@ -583,6 +583,36 @@ func (e *specEnv) callExpr(x *ast.CallExpr) sval {
 			e.errorf("typeis: unknown type %s", s)
 		}
 		return sval{Val{eq(a.v[0], num(int64(id)))}, tBool, ""}
+	case "at":
+		// at(ref, "pkg.T"): the value of type T stored at reference ref
+		a := e.eval(x.Args[0])
+		lit, ok := x.Args[1].(*ast.BasicLit)
+		if !ok {
+			e.errorf("at: second argument must be a string literal")
+			return sval{Val{sFalse}, tBool, ""}
+		}
+		s, _ := strconv.Unquote(lit.Value)
+		id := c.eng.typeIDByShortName(s)
+		t := c.eng.typeByID[id]
+		if t == nil {
+			e.errorf("at: unknown type %s", s)
+			return sval{Val{sFalse}, tBool, ""}
+		}
+		return sval{c.load(e.st.heap, locOfRef(a.v[len(a.v)-1], t)), t, ""}
+	case "fresh":
+		// fresh(ref): allocated during the call
+		a := e.eval(x.Args[0])
+		r := a.v[len(a.v)-1]
+		if a.t != nil {
+			if _, isS := a.t.Underlying().(*types.Slice); isS {
+				r = a.v[0]
+			}
+		}
+		lo := "0"
+		if e.old != nil {
+			lo = e.old.st.alloc.term()
+		}
+		return sval{Val{and(ge(r, lo), lt(r, e.st.alloc.term()))}, tBool, ""}
 	case "dyn":
 		// dyn(x): the payload reference of an interface value
 		a := e.eval(x.Args[0])
